@@ -49,6 +49,7 @@ func runC20(c *Ctx) {
 	noRuntimeLimits(c, "R10")
 	recursionBetweenFrames(c, "R13")
 	defer c.shared("R14", "C07/R9", "everything up to a limit works normally: the loop-iteration cap exists for the fuzzer only — in an ordinary run no loop (a for-in over a million elements included) is cut short by it", keyHas("loop-limit"), func(s *Ctx) { fuzzLimitGuarded(s, "R9") })
+	defer c.shared("R15", "C12/R1", "hitting a limit yields an ordinary error whatever the shape of the recursion: building the error does nothing but look up line and column", keyHas("funnel "), runC12)
 	defer c.shared("R11", "C18/R1", "hitting a limit keeps the output written before it: printf writes its text at once with a single write (it is not held back in the evaluator until a newline or the end of the run)", keyHas("single-write"), runC18)
 	defer c.shared("R12", "C10/R6", "hitting a limit keeps the output written before it: no output is parked in evaluator state", keyHas("evaluator-state", "interpreter-state"), func(s *Ctx) { interpreterState(s, "R6") })
 	defer c.shared("R9", "C04/R3", "everything up to the decoder's nesting limit works: the renderer and the JSON converter give the cycle verdict only when the path scan finds the value among its ancestors, never because of its depth", keyHas("cycle-verdict"), func(s *Ctx) {
